@@ -611,8 +611,9 @@ def sample(lst, k=3):
 
 def poly_oracle_tie(ctx):
     """Ties the PYTHON polynomial oracle (poly_judge above, dyn_poly_verdict in dyn_common.py) to its Coq mirror
-    (Proofs/PolyOracleDefs.v: poly_status, dyn_poly_status, poly_cert_test, prop_ground), whose soundness against the
-    semantics is proved in Properties/C03poly.v / C03polytop.v / C08poly.v: tools/poly_compare.py runs both on the same
+    (Proofs/PolyOracleDefs.v: poly_status, dyn_poly_status, poly_cert_test, prop_ground; Proofs/PolyClassesDefs.v:
+    cut_by_closure, the classes rule of checks/C19.py), whose soundness against the semantics is proved in
+    Properties/C03poly.v / C03polytop.v / C08poly.v / C19poly.v: tools/poly_compare.py runs both on the same
     synthetic frameworks, lists and returned sets (the Coq side by vm_compute) and every decision must coincide."""
     import re
     n = 120 if ctx.thorough else 40
@@ -623,6 +624,9 @@ def poly_oracle_tie(ctx):
     if ok:
         ctx.cov["polynomial_oracle_vs_coq_mirror"] = {"frameworks": int(m.group(1)), "status_decisions": int(m.group(2)),
                                                       "returned_sets": int(m.group(3)), "dynamic_decisions": int(m.group(4)), "differences": 0}
+        m2 = re.search(r"class partitions (\d+), cut (\d+)", out)
+        if m2:
+            ctx.cov["polynomial_oracle_vs_coq_mirror"].update({"class_partitions": int(m2.group(1)), "class_partitions_cut_by_a_built_complete_extension": int(m2.group(2))})
     else:
         ctx.violation("the python polynomial oracle and its Coq mirror (Proofs/PolyOracleDefs.v, proved sound in Properties/C03poly.v) disagree or could not be compared: the verdicts of the polynomial oracle are not backed by the theorems on this run",
                       "tools/poly_compare.py\n" + out[-3000:], found_input=False, key="polytie")
